@@ -3,7 +3,7 @@ from registry_common import COMMON_ASSUME
 ENTRY = dict(
         title="Schedule edits touch exactly the addressed slots; commit sends the edited week",
         design_ref="DESIGN.md section 6 / C18",
-        prop_modules=["C18", "C18Heap", "C18Unaligned", "TieSchedule"],
+        prop_modules=["C18", "C18Heap", "C18Unaligned", "TieSchedule", "C18Time"],
         technique="Lean 4 theorems over all days / bitmaps / edit sequences (model of set_state, the bitmap codec, the device's receive-edit-commit pipeline) + translator tables + correspondence with ScheduleDay.set_state and with a real EcoMAX device (handle_frame, Schedule objects, Schedule.commit)",
         level_text=(
             "Proof: `C18.set_exact` (a call succeeds iff state valid, times parse, end after start; the day afterwards differs exactly on slots lo..hi, "
@@ -25,7 +25,7 @@ ENTRY = dict(
             "edited partially before IndexError); `schedule_table`, `schedule_parameter_names` re-prove the name tables read from today's source. The model is tied to the code by an "
             "exhaustive run over all 48x48 aligned pairs x 4 states x day patterns, malformed states/times, a sweep over every start minute x boundary end minutes (thorough: all 1440x1440 minute pairs) answered by the model a start at a time, unpadded / non-ASCII-digit spellings of every minute, and by feeding "
             "SchedulesResponse payloads to a real EcoMAX, editing through its Schedule objects and comparing the queued SetScheduleRequest payload."),
-        level_note="Trusted: Lean kernel; time-string parsing is datetime.strptime's (the model receives its (hour, minute) result or 'unparsable'); model <-> code tie is differential; asyncio dispatch exercised under the virtual loop.",
+        level_note="Time strings (round 8): Model/TimeParse.lean `parseTime` specifies datetime.strptime(s, '%H:%M') on ASCII strings (un-padded spellings included; non-ASCII: declined), validated against CPython exhaustively over all digit strings d:d, d:dd, dd:d, dd:dd; Props/C18Time.lean: `parse_spellings` (all 24x60x4 spellings), `midnight_spellings`, `set_spelled`, `set_exact_str`, `set_error_inert_str`, `set_bad_time`; the harness judges aligned times by VALUE in every spelling. `_get_time_range` / `ScheduleDay.set_state` themselves are NOT translated (nested functions, lru_cache, datetime arithmetic are outside the translator's subset): model <-> code tie for them stays differential. Trusted: Lean kernel; strptime as specified above (the set_state model still receives CPython's (hour, minute) result or 'unparsable'); model <-> code tie is differential; asyncio dispatch exercised under the virtual loop.",
         clauses={
             "set_state changes exactly the slots start..end (end 00:00 = last slot), sets them to the state, keeps 48 slots": "theorem",
             "times that are not half-hour aligned (legal '%H:%M' input the statement does not speak about): compared on exact minutes, exact-midnight rule, floored slot indexes; relation to the aligned call on the floored times": "theorem (set_exact_unaligned, unaligned_eq_floored, unaligned_same_slot, unaligned_early_end) + correspondence (minute sweep: all 1440 start minutes x boundary ends in quick, all 1440 x 1440 pairs in thorough, x 4 day/state combinations)",
@@ -37,7 +37,7 @@ ENTRY = dict(
             "commit() of a Schedule object kept across later responses sends THAT object (its received week + exactly the edits made to it), switch / parameter of the device": "theorem (heap machine: kept_content, handle_commit_then_drain; refines_sys ties it to the lookup-only machine)",
             "40 distinct schedule names, switch/parameter names at positions 2i / 2i+1, 42-byte bitmap": "table",
             "the accepted states and the states that switch a slot on are the source's get_args(ScheduleState) / ON_STATES / OFF_STATES": "table (C18.states_pinned against Generated/ScheduleStates.lean, rewritten by the translator on every run)",
-            "parsing of '%H:%M' strings": "correspondence (strptime trusted)",
+            "parsing of '%H:%M' strings": "specification parseTime (Model/TimeParse.lean) + exhaustive correspondence with datetime.strptime on all digit strings of the four shapes; theorems C18Time.parse_spellings / midnight_spellings / set_spelled",
             "model = ScheduleDay / SchedulesStructure / EcoMAX._add_schedules / Schedule.commit": "correspondence",
             "every schedule a well-formed schedules response carries (any header bytes, any number of entries, the entry at any place) is decoded, in order, and offered by the device for editing and commit": "correspondence (wire layout)",
         },
